@@ -196,6 +196,10 @@ def build_form(case, with_heur=True):
                     o.get_objective_data()
                 elif q == "con":
                     o.get_constraint_data()
+                elif q == "same":
+                    # exactly the QUBO request that will be made after the heuristic (same mode, same penalty argument, same call form)
+                    rho = case.get("rho")
+                    o.get_qubo(feasibility=bool(case.get("feas", False)), penalty_parameter=None if rho is None else float(Fraction(rho)))
                 else:
                     o.get_qubo(feasibility=(q == "qubo_f"))
             except Exception:  # noqa
